@@ -66,9 +66,12 @@ func (s *Struct) Assign(gen Generator, ctx *MethodContext, assignTo *AssignTo, s
 		targetFieldPath := errPath.Field(targetField.Name())
 
 		if fieldMapping.Function == nil {
+			usedBefore := usedSourceID
 			usedSourceID = true
 			nextID, nextSource, mapStmt, lift, skip, err := mapField(gen, ctx, targetField, sourceID, source, target, additionalFieldSources, targetFieldPath)
 			if skip {
+				// a field skipped by ignoreMissing does not read the source
+				usedSourceID = usedBefore
 				continue
 			}
 			if err != nil {
